@@ -37,7 +37,9 @@ RULE = ("sequential: every sequence of load / load-from-document / render (both 
         "map, map[string]string items) / analyze / remove calls up to its depth, enumerated by TLC in BFS order, plus seeded random "
         "longer ones over the whole operation alphabet, all three entry points and six data classes; after every step every pool "
         "name is rendered through both engine entry points and compared (paragraphs, header, table rows) with PureRender of the value "
-        "the reference machine holds, and with its own previous render when the step did not redefine it; an analysis must leave "
+        "the reference machine holds, and with its own previous render when the step did not redefine it; a render asked for by the "
+        "behaviour is compared with PureRender when its list items are of the documented kind and, whatever the kind, with its "
+        "immediate repetition and with every earlier render of the same value with the same data; an analysis must leave "
         "templates and base documents untouched and the template must render the data it asks for the same twice. concurrent: every "
         "interleaving, at hook-point granularity, of two thread programs from the tier's pool (writer/reader and reader/reader pairs "
         "over string templates with inheritance; pairs of renders of document templates with per-thread data through all three entry "
@@ -48,10 +50,11 @@ ASSUMPTIONS = [
     "the text a render must show is fixed by Engine.tla for the template shapes of its pools only: a whole {{#each}} inside one "
     "cell paragraph is generated together with a conditional and outside the table's row loop (WellFormedTbl), a loop row holds "
     "no variable or conditional of the outer data; other shapes are not generated",
-    "list items are map[string]interface{} with or without the field used, map[string]string, or strings; the expected rendering "
-    "of items that are not map[string]interface{} (loop body emitted as written by string templates, skipped by document "
-    "templates, the row-loop row repeated as written) was read off the unchanged tree; C17 itself does not fix it - what C17 "
-    "fixes (same result every time, data untouched) is judged independently of it",
+    "list items are map[string]interface{} with the field used (documented), or - undocumented kinds - maps without it, "
+    "map[string]string, strings. Of renders with undocumented kinds no text is demanded (no render-wrong): only the status, the "
+    "same result as an immediate repetition, as any earlier render of the same template value with the same data in the behaviour "
+    "(sequential) / as the render done alone before the threads start and as the other calls of the run (concurrent), and "
+    "untouched data, templates and base documents; the reference machine's own choice for them only feeds generation",
     "TemplateRenderer is driven on the engine it creates for itself (pointer read from the unexported field `engine`); template "
     "files are written by Document.Save and read back by the library's Open",
     "AnalyzeTemplate / GetRequiredData: only read-only-ness and repeatability of the render with the data asked for are judged, "
